@@ -126,8 +126,8 @@ def _work(chunk):
         sys.setrecursionlimit(old)
 
 
-def replay_states(ctx, states, label):
-    """Replay all states; report the subset-minimal input class per clause."""
+def replay_states(states, found):
+    """Replay all states; collect failures in found: clause -> {flags -> (text, state)} (first = shortest expression)."""
     order = sorted(range(len(states)), key=lambda i: (len(states[i]["expr"]), states[i]["expr"],
                                                        states[i]["c"]["icp"], states[i]["c"]["fcp"]))
     items = [(i, states[i]) for i in order]
@@ -136,13 +136,18 @@ def replay_states(ctx, states, label):
     for part in common.parallel_map(_work, [ch for ch in chunks if ch], procs=8):
         for i, bad in part:
             results[i] = bad
-    found = {}        # clause -> {flags -> (text, state)}   (first = shortest expression)
     n_checks = 0
     for i in order:
         st = states[i]
         n_checks += 3 + 5 * len(st["next"])
         for clause, text in results[i]:
             found.setdefault(clause, {}).setdefault(flags_of(st), (text, st))
+    return n_checks
+
+
+def report(ctx, found):
+    """Report, per clause, the subset-minimal failing input classes (a class whose flags include those of an already
+    reported class of the same clause is counted but not listed)."""
     subsumed = 0
     for clause in sorted(found):
         reported = []
@@ -155,9 +160,8 @@ def replay_states(ctx, states, label):
             key = f"{clause}:{'+'.join(sorted(fl)) or 'plain'}"
             ctx.violation(key, text, {"case": to_py(st)})
     if subsumed:
-        ctx.notes.append(f"C16 [{label}]: {subsumed} further failing input classes are supersets of a reported class "
+        ctx.notes.append(f"C16: {subsumed} further failing input classes are supersets of a reported class "
                          f"(same clause) and are not listed separately")
-    return n_checks
 
 
 def _nontrivial(st):
@@ -240,7 +244,8 @@ def run(ctx):
     cfg = "IntSeq" if ctx.quick else "IntSeq_thorough"
     qlo = -2 if ctx.quick else -3
     states = _prep(oracle.enumerate_cases(ctx, "IntSeq", cfg, workers=8), qlo)
-    evals = replay_states(ctx, states, "box")
+    found = {}
+    evals = replay_states(states, found)
     n = len(states)
     nontrivial = sum(1 for st in states if _nontrivial(st))
     samples = [{"expr": st["expr"], "icp": st["c"]["icp"], "fcp": None if st["c"]["fcp"] == NONE else st["c"]["fcp"],
@@ -248,9 +253,10 @@ def run(ctx):
                for st in states if st["cls"]["low"] and st["cls"]["high"] and st["cls"]["exeff"]][:4]
     if not ctx.quick:
         rstates = run_random(ctx, 1500)
-        evals += replay_states(ctx, rstates, "random")
+        evals += replay_states(rstates, found)
         n += len(rstates)
         nontrivial += sum(1 for st in rstates if _nontrivial(st))
+    report(ctx, found)
     oracle.finish_cov(ctx, n, nontrivial,
                       "every legal <<form (13 spellings of the forms in the property), start, end (absolute or +P/-P "
                       "relative), step, repetitions, initial point, final point or none, exclusion (none, 1-2 points, "
